@@ -1,36 +1,9 @@
 (* O-tie, Venom front end: every template exported from vyper/codegen_venom/arithmetic.py (GenVenom.v,
    regenerated each run) is syntactically equal to the parametric model (ArithModel.v, v_ generators). *)
 From Coq Require Import ZArith Bool List String Lia.
-From Verif Require Import Base.Word256 C03.LIR C03.VSL C03.ArithSpec C03.ArithModel C03.GenVenom C03.TieLegacy.
+From Verif Require Import Base.Word256 C03.LIR C03.VSL C03.ArithSpec C03.ArithModel C03.TieBase C03.GenVenom.
 Import ListNotations.
 Open Scope Z_scope.
-
-Lemma vop_eqb_eq a b : vop_eqb a b = true -> a = b.
-Proof.
-  destruct a, b; cbn; intros H; try discriminate H; f_equal; [apply Z.eqb_eq | apply String.eqb_eq]; assumption.
-Qed.
-Lemma vinstr_eqb_eq i j : vinstr_eqb i j = true -> i = j.
-Proof.
-  destruct i, j; cbn [vinstr_eqb]; intros H; try discriminate H;
-    repeat match goal with H : _ && _ = true |- _ => apply andb_true_iff in H; destruct H end;
-    repeat match goal with
-           | H : String.eqb _ _ = true |- _ => apply String.eqb_eq in H; subst
-           | H : vop_eqb _ _ = true |- _ => apply vop_eqb_eq in H; subst
-           | H : op1_eqb _ _ = true |- _ => apply op1_eqb_eq in H; subst
-           | H : op2_eqb _ _ = true |- _ => apply op2_eqb_eq in H; subst
-           | H : op3_eqb _ _ = true |- _ => apply op3_eqb_eq in H; subst
-           end; reflexivity.
-Qed.
-Lemma vlist_eqb_eq l : forall m, vlist_eqb l m = true -> l = m.
-Proof.
-  induction l as [|i l IH]; destruct m as [|j m]; cbn; intros H; try discriminate H; [reflexivity|].
-  apply andb_true_iff in H. destruct H as [H1 H2]. f_equal; [apply vinstr_eqb_eq | apply IH]; assumption.
-Qed.
-Lemma vtemplate_eqb_eq s t : vtemplate_eqb s t = true -> s = t.
-Proof.
-  destruct s, t. unfold vtemplate_eqb. cbn [fst snd]. intros H. apply andb_true_iff in H. destruct H.
-  f_equal; [apply vlist_eqb_eq | apply vop_eqb_eq]; assumption.
-Qed.
 
 Definition vmodel (op : aop) (T : nty) : option vtemplate :=
   match op with
